@@ -196,6 +196,22 @@ for gname, g in GS.items():
                 except Exception as e:
                     row.append({'k': 'exc', 'cls': type(e).__name__, 'msg': str(e)[:120]})
             out.append({'g': gname, 'grammar': g, 'text': text, 'settings': sname, 'model': row[0], 'generated': row[1]})
+        # one parser object (and the one model object) asked for an object model first and for a plain parse afterwards
+        for first in ('a,b', '%'):
+            row = []
+            for p in (model, ns['MParser']()):
+                try:
+                    p.parse(first, start='start', asmodel=True)
+                except Exception:
+                    pass
+                try:
+                    row.append({'k': 'ok', 'v': proj(p.parse(text, start='start'))})
+                except tatsu.exceptions.FailedParse as e:
+                    row.append({'k': 'fail'})
+                except Exception as e:
+                    row.append({'k': 'exc', 'cls': type(e).__name__, 'msg': str(e)[:120]})
+            out.append({'g': gname, 'grammar': g, 'text': text, 'settings': 'no settings, after parse(%r, asmodel=True) on the same object' % first,
+                        'model': row[0], 'generated': row[1]})
 print(json.dumps(out))
 '''
 
